@@ -53,6 +53,7 @@ class State(object):
         s.contains = set(self.contains)
         s.prefixof = dict(getattr(self, "prefixof", {}))
         s.lenof = dict(getattr(self, "lenof", {}))
+        s.splitof = dict(getattr(self, "splitof", {}))
         s.dead = self.dead
         return s
 
@@ -79,6 +80,8 @@ def join(a, b):
     s.prefixof = {k: v for k, v in pa.items() if pb.get(k) == v}
     la, lb = getattr(a, "lenof", {}), getattr(b, "lenof", {})
     s.lenof = {k: v for k, v in la.items() if lb.get(k) == v}
+    sa, sb = getattr(a, "splitof", {}), getattr(b, "splitof", {})
+    s.splitof = {k: v for k, v in sa.items() if sb.get(k) == v}
     return s
 
 
@@ -185,8 +188,33 @@ class Analyzer(object):
         st.lists, st.opt, st.dicts, st.elems, st.strsrc, st.contains, st.dead = new.lists, new.opt, new.dicts, new.elems, new.strsrc, new.contains, new.dead
         st.prefixof = dict(getattr(new, "prefixof", {}))
         st.lenof = dict(getattr(new, "lenof", {}))
+        st.splitof = dict(getattr(new, "splitof", {}))
 
     # ------------------------------------------------------------------
+    def add_contains(self, st, src, c):
+        st.contains.add((src, c))
+        if any(ch not in " /\t\n\r" for ch in c):
+            for name, s0 in getattr(st, "splitof", {}).items():
+                if s0 == src and name in st.lists:
+                    st.lists[name][0] = max(st.lists[name][0], 1)
+
+    def prefix_strings(self, arg):
+        """the constant string(s) of a startswith / endswith argument: a literal, a tuple of literals, or a module-level constant holding one"""
+        if isinstance(arg, ast.Constant) and isinstance(arg.value, str):
+            return [arg.value]
+        if isinstance(arg, ast.Tuple) and arg.elts and all(isinstance(e, ast.Constant) and isinstance(e.value, str) for e in arg.elts):
+            return [e.value for e in arg.elts]
+        if isinstance(arg, ast.Name):
+            try:
+                v = self.repo.const(self.module, arg.id)
+            except Exception:
+                return None
+            if isinstance(v, str):
+                return [v]
+            if isinstance(v, (tuple, list, frozenset, set)) and v and all(isinstance(e, str) for e in v):
+                return list(v)
+        return None
+
     def callee(self, call):
         return self.repo.resolve_call(self.module, call.func)
 
@@ -250,6 +278,12 @@ class Analyzer(object):
             st.lenof.pop(name, None)
             for k in [k for k, v in st.lenof.items() if v == name]:
                 st.lenof.pop(k)
+            # x = pathsplit(p): what is learnt about p afterwards (a prefix with a segment character) still bounds x
+            if not hasattr(st, "splitof"):
+                st.splitof = {}
+            st.splitof.pop(name, None)
+            for k in [k for k, v in st.splitof.items() if v == name]:
+                st.splitof.pop(k)
             if isinstance(value, ast.Call) and isinstance(value.func, ast.Name) and value.func.id == "len" and len(value.args) == 1 and isinstance(value.args[0], ast.Name) and value.args[0].id in st.lists:
                 st.lenof[name] = value.args[0].id
                 return
@@ -270,6 +304,8 @@ class Analyzer(object):
                 st.lists[name] = [p[1], p[2]]
                 if p[3]:
                     st.strsrc[name] = p[3]
+                if isinstance(value, ast.Call) and self.callee(value) in self.list_producers and value.args:
+                    st.splitof[name] = unparse(value.args[0])
             elif p[0] == "qs":
                 st.dicts[name] = set()
             elif p[0] == "opt":
@@ -463,7 +499,7 @@ class Analyzer(object):
                     j = join(j, b)
                 self._replace(st, j)
                 for src in seg or ():
-                    st.contains.add((src, "\x00segment"))
+                    self.add_contains(st, src, "\x00segment")
             return
         if isinstance(test, ast.Name):
             n = test.id
@@ -473,7 +509,7 @@ class Analyzer(object):
                 else:
                     st.lists[n] = [0, 0]
             if pol and n in getattr(st, "prefixof", {}):
-                st.contains.add((n, st.prefixof[n]))
+                self.add_contains(st, n, st.prefixof[n])
             if n in st.opt or st.opt.get(n) is not None:
                 if pol:
                     st.opt[n] = False
@@ -491,8 +527,12 @@ class Analyzer(object):
             elif pol and re.search(r"\b(str|string_type|bytes)\b", unparse(test.args[1])):
                 st.dead = True
             return
-        if isinstance(test, ast.Call) and isinstance(test.func, ast.Attribute) and test.func.attr in ("startswith", "endswith") and pol and test.args and isinstance(test.args[0], ast.Constant) and isinstance(test.args[0].value, str):
-            st.contains.add((unparse(test.func.value), test.args[0].value))
+        if isinstance(test, ast.Call) and isinstance(test.func, ast.Attribute) and test.func.attr in ("startswith", "endswith") and pol and test.args and self.prefix_strings(test.args[0]):
+            strs = self.prefix_strings(test.args[0])
+            if len(strs) == 1:
+                self.add_contains(st, unparse(test.func.value), strs[0])
+            elif all(any(ch not in " /\t\n\r" for ch in c) for c in strs):
+                self.add_contains(st, unparse(test.func.value), "\x00segment")  # whichever it is, it holds a segment character
             return
         if isinstance(test, ast.Compare) and len(test.ops) == 1:
             op = test.ops[0]
@@ -546,7 +586,7 @@ class Analyzer(object):
             if isinstance(op, (ast.In, ast.NotIn)) and isinstance(l, ast.Constant) and isinstance(l.value, str):
                 present = pol if isinstance(op, ast.In) else not pol
                 if present:
-                    st.contains.add((unparse(r), l.value))
+                    self.add_contains(st, unparse(r), l.value)
                 return
             # x is None / is not None
             if isinstance(op, (ast.Is, ast.IsNot)) and isinstance(r, ast.Constant) and r.value is None:
